@@ -21,6 +21,10 @@ From MV Require Import Common.Sx C07.Model.
 Import ListNotations.
 Local Open Scope N_scope.
 
+(* concat.rs promises plain concatenation, whatever the length *)
+Fixpoint c_flat (t : cstr) : bytes :=
+  match t with CLeaf s => s | CCat a b => c_flat a ++ c_flat b end.
+
 Section Spec.
 Variables pascal snake kebab : bytes -> bytes.
 
@@ -99,6 +103,11 @@ Fixpoint leaf_units_ok (l : leaf) : bool :=
   | _ => true
   end.
 
+Inductive sitem := STimestamp (t : N) | SValue (name : bytes) (v : vcall).
+(* an absent value (Option::None) contributes nothing *)
+Definition present (it : sitem) : list sitem :=
+  match it with SValue _ VNone => [] | _ => [it] end.
+
 Inductive row :=
 | RTimestamp (t : N)
 | RValue (name : bytes) (v : vcall) (group : option bytes)   (* one per non-ignored field / tag *)
@@ -149,15 +158,15 @@ with sp_vdata (st : style) (pfx : option prefix) (d : vdata) (acc : bytes) {stru
   | DStruct fs => sp_fields st pfx fs acc
   end.
 
-(* what a formatter sees: (name, value) of every present value, and the timestamp *)
-Inductive sitem := STimestamp (t : N) | SValue (name : bytes) (v : vcall).
-Definition row_items (r : row) : list sitem :=
+(* the EntryWriter calls a row stands for (one per non-ignored field), and what a formatter sees of them:
+   (name, value) of every PRESENT value, and the timestamp *)
+Definition row_calls (r : row) : list sitem :=
   match r with
   | RTimestamp t => [STimestamp t]
-  | RValue n VNone _ => []
   | RValue n v _ => [SValue n v]
   | RGroup _ _ => []
   end.
+Definition row_items (r : row) : list sitem := flat_map present (row_calls r).
 Definition row_groups (r : row) : list (bytes * bytes) :=
   match r with
   | RValue n _ (Some g) => [(n, g)]
@@ -165,8 +174,46 @@ Definition row_groups (r : row) : list (bytes * bytes) :=
   | _ => []
   end.
 Definition spec_rows (d : edef) : list row := sp_entry d Preserve [].
+Definition spec_calls (d : edef) : list sitem := flat_map row_calls (spec_rows d).
 Definition spec_items (d : edef) : list sitem := flat_map row_items (spec_rows d).
 Definition spec_groups (d : edef) : list (bytes * bytes) := flat_map row_groups (spec_rows d).
+
+(* the number of non-ignored fields reached through present flattened children (a tag is a field, a
+   hand-written flattened Entry counts for the calls it makes) *)
+Fixpoint n_calls (d : edef) {struct d} : nat :=
+  match d with
+  | EStruct _ _ fs => n_fields fs
+  | EEnum _ _ tg vs i => n_variants tg vs i
+  end
+with n_fields (fs : fields) {struct fs} : nat :=
+  match fs with
+  | FNil => O
+  | FCons _ k r => (n_kind k + n_fields r)%nat
+  end
+with n_kind (k : fkind) {struct k} : nat :=
+  match k with
+  | KField _ _ _ _ => 1%nat
+  | KFlatten _ OptNone _ => O
+  | KFlatten _ _ d => n_calls d
+  | KFlattenEntry raw _ => length raw
+  | KTimestamp _ => 1%nat
+  | KIgnore => O
+  end
+with n_variants (tg : option tag) (vs : variants) (i : nat) {struct vs} : nat :=
+  match vs with
+  | VNil => O
+  | VCons _ _ d r =>
+      match i with
+      | O => ((match tg with Some _ => 1 | None => 0 end) + n_vdata d)%nat
+      | S j => n_variants tg r j
+      end
+  end
+with n_vdata (d : vdata) {struct d} : nat :=
+  match d with
+  | DUnit => O
+  | DTuple fs => n_fields fs
+  | DStruct fs => n_fields fs
+  end.
 
 (* declared units are compatible everywhere in the tree *)
 Fixpoint units_ok (d : edef) {struct d} : bool :=
@@ -199,12 +246,68 @@ with vdata_units_ok (d : vdata) {struct d} : bool :=
 
 End Spec.
 
-(* what the implementation's observation is compared with: the written items with the Cow kind dropped and
-   absent values removed *)
-Definition observe_item (it : item) : list sitem :=
-  match it with
-  | ITimestamp t => [STimestamp t]
-  | IValue _ _ VNone => []
-  | IValue n _ v => [SValue n v]
+(* ---- the shape of the known finding (sample-group names of flattened children lack the flatten prefix) ----
+   [no_groups d]: no sample-group declaration anywhere in d (conservatively: in any variant);
+   [sg_safe d]  : no flatten PREFIX sits above a sample-group declaration. *)
+Fixpoint no_groups (d : edef) {struct d} : bool :=
+  match d with
+  | EStruct _ _ fs => fields_no_groups fs
+  | EEnum _ _ tg vs _ => (match tg with Some t => negb (tg_sg t) | None => true end) && variants_no_groups vs
+  end
+with fields_no_groups (fs : fields) {struct fs} : bool :=
+  match fs with
+  | FNil => true
+  | FCons _ k r => kind_no_groups k && fields_no_groups r
+  end
+with kind_no_groups (k : fkind) {struct k} : bool :=
+  match k with
+  | KField _ _ sg _ => negb sg
+  | KFlatten _ _ d => no_groups d
+  | KFlattenEntry _ rawsg => match rawsg with [] => true | _ => false end
+  | _ => true
+  end
+with variants_no_groups (vs : variants) {struct vs} : bool :=
+  match vs with
+  | VNil => true
+  | VCons _ _ d r => vdata_no_groups d && variants_no_groups r
+  end
+with vdata_no_groups (d : vdata) {struct d} : bool :=
+  match d with
+  | DUnit => true
+  | DTuple fs => fields_no_groups fs
+  | DStruct fs => fields_no_groups fs
   end.
-Definition observe (its : list item) : list sitem := flat_map observe_item its.
+
+Fixpoint sg_safe (d : edef) {struct d} : bool :=
+  match d with
+  | EStruct _ _ fs => fields_sg_safe fs
+  | EEnum _ _ _ vs _ => variants_sg_safe vs
+  end
+with fields_sg_safe (fs : fields) {struct fs} : bool :=
+  match fs with
+  | FNil => true
+  | FCons _ k r => kind_sg_safe k && fields_sg_safe r
+  end
+with kind_sg_safe (k : fkind) {struct k} : bool :=
+  match k with
+  | KFlatten None _ d => sg_safe d
+  | KFlatten (Some _) _ d => no_groups d
+  | _ => true
+  end
+with variants_sg_safe (vs : variants) {struct vs} : bool :=
+  match vs with
+  | VNil => true
+  | VCons _ _ d r => vdata_sg_safe d && variants_sg_safe r
+  end
+with vdata_sg_safe (d : vdata) {struct d} : bool :=
+  match d with
+  | DUnit => true
+  | DTuple fs => fields_sg_safe fs
+  | DStruct fs => fields_sg_safe fs
+  end.
+
+(* what the implementation's observation is compared with: the written items with the Cow kind dropped
+   ([strip]) and absent values removed *)
+Definition strip (it : item) : sitem :=
+  match it with ITimestamp t => STimestamp t | IValue n _ v => SValue n v end.
+Definition observe (its : list item) : list sitem := flat_map present (map strip its).
